@@ -4,6 +4,7 @@ import (
 	"fmt"
 	"go/types"
 	"math/big"
+	"regexp"
 	"strings"
 )
 
@@ -17,6 +18,9 @@ type Term struct {
 func (t Term) String() string { return t.S }
 
 var two = big.NewInt(2)
+var byteRe = regexp.MustCompile(`\bbyte\b`)
+var runeRe = regexp.MustCompile(`\brune\b`)
+var anyRe = regexp.MustCompile(`\bany\b`)
 
 func pow2(n int) string { return new(big.Int).Exp(two, big.NewInt(int64(n)), nil).String() }
 
@@ -67,6 +71,9 @@ func isBool(t types.Type) bool {
 // typeKey is a stable, SMT-identifier-safe name for a Go type.
 func typeKey(t types.Type) string {
 	s := types.TypeString(t, func(p *types.Package) string { return shortPkg(p.Path()) })
+	s = byteRe.ReplaceAllString(s, "uint8")
+	s = runeRe.ReplaceAllString(s, "int32")
+	s = anyRe.ReplaceAllString(s, "interface{}")
 	r := strings.NewReplacer("/", "_", ".", "_", "*", "P", "[", "A", "]", "_", " ", "", "{", "L", "}", "R", ";", "_", "(", "", ")", "", ",", "_", "<", "", "-", "")
 	return r.Replace(s)
 }
